@@ -88,7 +88,33 @@ def load_known():
         return json.load(fh)['findings']
 
 
-def write_evidence(pid, tier, seed, rep, wall, violations, known_hit, error=None):
+def self_validate(pid):
+    """thorough tier: every recorded breaking change that this check is known to detect is applied to a scratch
+    copy of the current tree (outside /repo and /verif) and the quick check is run on it; it must report a violation"""
+    from concurrent.futures import ThreadPoolExecutor
+    from .selftest import run_patch
+    p = os.path.join(VERIF, 'selftest', 'index.json')
+    if not os.path.exists(p):
+        return {}
+    with open(p) as fh:
+        idx = json.load(fh)['patches']
+    todo = sorted(k for k, v in idx.items() if pid in v.get('fires', []))
+    out = {}
+
+    def one(patch):
+        r = run_patch(os.path.join(VERIF, patch), [pid])
+        if not r['applied']:
+            return patch, {'fired': True, 'note': 'patch no longer applies to the current tree (skipped)'}
+        c = r['checks'][pid]
+        return patch, {'fired': c['exit'] == 1, 'exit': c['exit'],
+                       'report': [l for l in c['lines'] if ' rule=' in l][:2]}
+    with ThreadPoolExecutor(max_workers=6) as ex:
+        for patch, r in ex.map(one, todo):
+            out[patch] = r
+    return out
+
+
+def write_evidence(pid, tier, seed, rep, wall, violations, known_hit, error=None, sv=None):
     evdir = os.environ.get('QV_EVIDENCE_DIR') or os.path.join(VERIF, 'evidence')
     os.makedirs(evdir, exist_ok=True)
     distinct = len({(o['rule'], o['site']) for o in rep.obs})
@@ -123,6 +149,8 @@ def write_evidence(pid, tier, seed, rep, wall, violations, known_hit, error=None
     }
     if error:
         ev['coverage']['analysis_error'] = error
+    if sv is not None:
+        ev['coverage']['self_validation'] = {k: v for k, v in sv.items()}
     with open(os.path.join(evdir, '%s.json' % pid), 'w') as fh:
         json.dump(ev, fh, indent=1, sort_keys=True)
 
@@ -178,7 +206,17 @@ def main():
     if a.verbose:
         for o in rep.obs:
             print('  ', o['verdict'], o['rule'], o['site'], o['detail'])
-    write_evidence(pid, tier, seed, rep, time.time() - t0, len(new), hit)
+    sv = None
+    if tier == 'thorough' and not new and os.environ.get('QV_REPO') is None:
+        sv = self_validate(pid)
+        rep.counts['self-validation patches replayed'] = len(sv)
+        rep.notes.append({'self_validation': sv})
+        missed = [p for p, r in sv.items() if not r['fired']]
+        if missed:
+            print('ANALYSIS-ERROR property=%s self-validation: the check does not report %s any more' % (pid, ', '.join(missed)))
+            write_evidence(pid, tier, seed, rep, time.time() - t0, 0, hit, error='self-validation missed: ' + ', '.join(missed), sv=sv)
+            sys.exit(2)
+    write_evidence(pid, tier, seed, rep, time.time() - t0, len(new), hit, sv=sv)
     if new:
         rdir = os.environ.get('QV_REPLAY_DIR') or os.path.join(VERIF, '.cache', 'replay')
         os.makedirs(rdir, exist_ok=True)
